@@ -742,8 +742,9 @@ func streamC01(c *Ctx) {
 	nprog := map[string]int{}
 	var noparse []string
 
+	handPicked := false
 	runOn := func(src, kind string, ins []any, inputs []any) {
-		if dangerous(src) {
+		if !handPicked && dangerous(src) {
 			c.Count("filtered-dangerous")
 			return
 		}
@@ -774,6 +775,24 @@ func streamC01(c *Ctx) {
 	}
 	someInputs := []any{1, "x", []any{2}}
 
+	// (0) deterministic blocks first (reg.go): regression corpus of fixed findings, scoping, jq-defined callees in
+	// path arguments, boundary numbers.  They are hand-picked, so the `dangerous` filter does not apply.
+	handPicked = true
+	for _, f := range firstBlocks() {
+		per := map[string]int{"regress": len(f.ins), "scope": 2, "callee": 3, "boundary": 2}[f.name]
+		for i, src := range f.progs {
+			if quick {
+				var ins []any
+				for j := 0; j < per; j++ {
+					ins = append(ins, f.ins[(i+j*5+int(c.Seed%11))%len(f.ins)])
+				}
+				runOn(src, f.name, ins, f.inputs)
+			} else {
+				runOn(src, f.name, f.ins, f.inputs)
+			}
+		}
+	}
+	handPicked = false
 	// (a)
 	exh := exhaustive(r.Fork(), "quick")
 	for i, src := range exh {
